@@ -97,8 +97,11 @@ def eval_adverb_each_index(f, a, op, backend):
     if is_empty(a):
         return a
     if is_iterable(a):
+        j = isinstance(a, str)
+        a = backend.str_to_chr_arr(a) if j else a  # the members of a string are characters
         r = [f(backend.kg_asarray([i, x])) for i, x in enumerate(a)]
-        return backend.kg_asarray(r)
+        # as for Each: a list of characters is a string
+        return ''.join(r) if j and all(is_char(u) for u in r) else backend.kg_asarray(r)
     return f(backend.kg_asarray([0, a]))
 
 
@@ -123,6 +126,9 @@ def eval_adverb_each2(f, a, b, backend=None):
         return bknp.asarray([]) if is_list(a) or is_list(b) else ""
     if is_atom(a) and is_atom(b):
         return f(a,b)
+    # the members of a string are characters
+    a = [KGChar(c) for c in a] if isinstance(a, str) else a
+    b = [KGChar(c) for c in b] if isinstance(b, str) else b
     r = [f(x,y) for x,y in zip(a,b)]
     try:
         r = bknp.asarray(r)
